@@ -273,3 +273,4 @@ def run(ctx):
     _run_rules(ctx)
     from .. import boundaries
     boundaries.check(ctx, 'C18.RB', 'C18')
+    boundaries.check_amounts(ctx, 'C18.RA', 'C18')
